@@ -941,6 +941,8 @@ private:
             }
             else
             {
+                // the table holds the string, not its tag
+                write_tag(raw_tag);
                 write_tag(25);
                 write_uint64_value((*it).second);
             }
